@@ -139,10 +139,17 @@ contract('parso.parser.BaseParser._add_token', params={'self': 'ref:BaseParser',
          raises=['ParserSyntaxError', 'NotImplementedError', 'InternalParseError'],
          raises_ensures={'ParserSyntaxError': LEAF_IS_TOKEN},
          loops={0: dict(invariant=['stack is self.stack', 'stack is not None', STACK_WF, TABLES_WF, PUSHES_WF, DISJOINT,
-                                   'len(stack) == 0 or ' + ROOT_OPEN, NODES_NN, ARCS_WF],
+                                   'len(stack) == 0 or ' + ROOT_OPEN, NODES_NN, ARCS_WF, 'forall(lambda k: implies(0 <= k and k < len(stack), allocated(stack[k])), trigger=lambda k: stack[k])'],
                         decreases='len(self.stack) + 1'),
                 1: dict(invariant=['stack is self.stack', 'stack is not None', 'len(stack) >= 1', STACK_WF, PUSHES_WF, NODES_NN,
-                                   'plan is not None and plan.dfa_pushes is not None and stack is not plan.dfa_pushes'],
+                                   'plan is not None and plan.dfa_pushes is not None and stack is not plan.dfa_pushes',
+                                   # C06 "the engine step is the table step": below the pushed entries lies the entry that took
+                                   # the transition, now in the plan's target state; the entries pushed so far are exactly
+                                   # the plan's states, in order, each still without nodes
+                                   'forall(lambda k: implies(0 <= k and k < len(stack), allocated(stack[k])), trigger=lambda k: stack[k])',
+                                   'len(stack) >= _i + 1', 'stack[len(stack) - _i - 1].dfa is plan.next_dfa',
+                                   'forall(lambda k: implies(0 <= k and k < _i, stack[len(stack) - _i + k].dfa is plan.dfa_pushes[k] and '
+                                   'len(stack[len(stack) - _i + k].nodes) == 0), trigger=lambda k: plan.dfa_pushes[k])'],
                         len_stable=True, lists_modified=['stack'])},
          modifies=['dfa', 'parent', 'children', 'stack', 'nodes', '_omit_dedent_list'], lists='*', frame_assumed=NODE_CTOR,
          # self.error_recovery(token) is dispatched dynamically: the assumed contract of any overrider
